@@ -27,10 +27,10 @@ done
 import json,sys
 rows=[dict(zip(("seed","check","verdict","first_bucket"), (l.rstrip("\n").split("\t")+["",""])[:4])) for l in open(sys.argv[1]) if l.strip()]
 import os
-res=json.load(open("/verif/seeded/RESULTS.json")) if os.path.exists("/verif/seeded/RESULTS.json") else {}
+res=json.load(open(""+os.environ.get("SWEEP_RESULTS","/verif/seeded/RESULTS.json")+"")) if os.path.exists(""+os.environ.get("SWEEP_RESULTS","/verif/seeded/RESULTS.json")+"") else {}
 for r in rows: res.pop(r["seed"],None)
 for r in rows: res.setdefault(r["seed"],{})[r["check"]]={"verdict":r["verdict"],"first_bucket":r.get("first_bucket","")}
-json.dump(res,open("/verif/seeded/RESULTS.json","w"),indent=1,sort_keys=True)
+json.dump(res,open(""+os.environ.get("SWEEP_RESULTS","/verif/seeded/RESULTS.json")+"","w"),indent=1,sort_keys=True)
 print("written seeded/RESULTS.json", len(res))
 PY
 rm -rf /dev/shm/mut/sweep-ev-$$ /dev/shm/mut/sweep-$$.log $OUT
